@@ -72,6 +72,10 @@ def cases(tier, seed):
             else:
                 for r, a in placements:
                     out.append({"joint": jname, "axis": axis, "pair": pair, "r_OJ0": r, "A_IJ0": a, "seed": seed, "tier": tier})
+                # joint basis tilted by 2e-3 rad / 1e-6 rad against the body basis of one partner (nearly, but not, aligned; seeded C05-h)
+                if pair in ("F0-RB", "RB-RB", "RB-Fm", "RB-ROD@0.5") or tier != "quick":
+                    out.append({"joint": jname, "axis": axis, "pair": pair, "r_OJ0": "generic", "A_IJ0": "near2", "seed": seed, "tier": tier})
+                    out.append({"joint": jname, "axis": axis, "pair": pair, "r_OJ0": "none", "A_IJ0": "near1_1e-6", "seed": seed, "tier": tier})
     # simplest first: body pairs before rods, default placement first
     out.sort(key=lambda c: ("ROD" in c["pair"], c.get("r_OJ0", "none") != "none"))
     return out
@@ -86,7 +90,7 @@ def build(case):
     (k1, xi1), (k2, xi2) = [J.split_kind(s) for s in case["pair"].split("-")]
     jname = case["joint"]
     r_OJ0 = ab.generic_vec(seed, 20, 3, 0.7) if case.get("r_OJ0") == "generic" else None
-    A_IJ0 = {"none": None, "I": np.eye(3), "generic": J.generic_rotation(seed, 21)}[case.get("A_IJ0", "none")]
+    A_IJ0 = {"none": None, "I": np.eye(3), "generic": J.generic_rotation(seed, 21)}.get(case.get("A_IJ0", "none"))
 
     def ref_point(kind, slot):
         """reference point r_OP(t0,q0) of the partner as the harness knows it (to place a PointMass there)"""
@@ -117,6 +121,16 @@ def build(case):
         # place the point mass on the rod's cross-section centre (rod reference point at q0)
         el = s2.local_qDOF_P(xi2)
         s1.q0 = np.asarray(s2.r_OP(J.T0, np.asarray(s2.q0, float)[el], xi2), float)
+    if case.get("A_IJ0", "none").startswith("near"):
+        which, kind, xi = (s1, k1, xi1) if case["A_IJ0"].startswith("near1") else (s2, k2, xi2)
+        if kind == "RB":
+            Ab = np.asarray(which.A_IB(J.T0, np.asarray(which.q0, float)), float)
+        elif kind == "ROD":
+            Ab = np.asarray(which.A_IB(J.T0, np.asarray(which.q0, float)[which.local_qDOF_P(xi)], xi), float)
+        else:
+            Ab = np.asarray(which.A_IB(J.T0), float)
+        tilt = 1e-6 if case["A_IJ0"].endswith("1e-6") else 2e-3
+        A_IJ0 = Ab @ J.rot(ab.generic_unit(seed, 27), tilt)
     off = {"zero": None, "generic": True}
     off1 = ab.generic_vec(seed, 23, 3, 0.4) if off.get(case.get("off1", "zero")) else None
     off2 = ab.generic_vec(seed, 24, 3, 0.4) if off.get(case.get("off2", "zero")) else None
